@@ -40,7 +40,7 @@ REQUIRED = ["no_loss", "admitted_by_commit", "only_admitted_delivered", "save_ev
             # deepening round 3 (NutsProofs.Props.C14Vis): a listed failed event stays listed until its completion is recorded (ALL histories), Run leaves parked jobs alone
             "failed_stays_visible_or_completed", "restart_keeps_failed_visible", "restart_leaves_parked_job_alone", "parked_failed_job_stays_listed",
             "restart_never_calls_parked_job", "fact_run_only_reads_calls_and_reschedules", "fact_threshold_below_fatal_mark",
-            "calls_bounded_across_restarts", "runCost_le"]
+            "calls_bounded_across_restarts", "runCost_le", "rest_row_stays_until_completed"]
 
 
 def sel(filters, tx, ty):
